@@ -19,7 +19,7 @@ VERIF = os.path.dirname(os.path.abspath(__file__))
 REPO = os.environ.get("VERIF_REPO", "/repo")
 # where evidence and replay files go (default: inside /verif; the seeded-change runner points this at a scratch directory)
 OUTDIR = os.environ.get("VERIF_OUT", "")
-BUILD = os.path.join(VERIF, "build")
+BUILD = os.environ.get("VERIF_BUILD") or os.path.join(VERIF, "build")
 NPROC = int(os.environ.get("VERIF_JOBS", "0")) or min(16, os.cpu_count() or 4)
 
 BASE_CFLAGS = ["-O2", "-g", "-DNDEBUG", "-std=c99", "-DREPROC_MULTITHREADED"]
@@ -56,7 +56,7 @@ reg("C14", "h_c14", "asan")
 reg("C20", "h_c20")
 
 # quick / thorough wall-clock budgets per check (seconds); hitting one ends the run with exhaustive:false
-DEADLINE = {"quick": 150, "thorough": 2400}
+DEADLINE = {"quick": 300, "thorough": 2400}
 
 
 def sh(cmd, **kw):
